@@ -67,7 +67,33 @@ def plans(tier, seed):
 _PF = [0]
 
 
+class ConverterRaised(Exception):
+    """the converter raised while it advanced its own state; `steps` = the joint actions it had applied or tried so far"""
+
+    def __init__(self, error, steps):
+        super().__init__(str(error))
+        self.error, self.steps = error, steps
+
+
 def _convert(conv, problem, plan, agents, flag, via_file):
+    import pddl_plus_parser.multi_agent.single_agent_plan_converter as spc
+    steps = []
+    real = spc.apply_actions
+
+    def recording(domain, state, joint_action, *a, **k):
+        steps.append([(ac.name, list(ac.parameters)) for ac in joint_action])
+        return real(domain, state, joint_action, *a, **k)
+
+    spc.apply_actions = recording
+    try:
+        return _convert_inner(conv, problem, plan, agents, flag, via_file)
+    except ValueError as e:
+        raise ConverterRaised(e, steps)
+    finally:
+        spc.apply_actions = real
+
+
+def _convert_inner(conv, problem, plan, agents, flag, via_file):
     """the grouping step alone, or the public entry point convert_plan on a real plan file (the layout of the file written
     by export_plan is not part of the property and is not asserted)"""
     from pddl_plus_parser.models import ActionCall
@@ -120,6 +146,11 @@ def run_convert(task):
 
         def on_path(ctx: Ctx, pr):
             if pr.kind == "exc":
+                if isinstance(pr.value, ConverterRaised) and _after_interfering_step(ctx, comp, pr.value.steps):
+                    # the converter's own state went astray because an EARLIER step grouped members that are applicable,
+                    # write no fluent twice, and interfere: the crash is a consequence of known finding C15-F1
+                    res.setdefault("interference", []).append(f"converter raised after the interfering step {pr.value.steps[:-1]}")
+                    return
                 _report(ctx, res, comp, atoms, fl_all, f"raised {type(pr.value).__name__}: {pr.value}", None)
                 return
             if pr.value is None:
@@ -143,11 +174,14 @@ def run_convert(task):
             if problems:
                 _report(ctx, res, comp, atoms, fl_all, "; ".join(problems[:3]), joint)
                 return
-            # semantic obligations
+            # semantic obligations, step by step.  The joint plan has a meaning only as long as every step so far is
+            # non-interfering (all orders applicable, all orders the same state): at the first step whose members are all
+            # applicable, write no fluent twice, and CAN interfere, known finding C15-F1 applies and nothing after that
+            # step is judged (its pre-state would depend on an application order the property does not define).
             sa, sf = comp.identity()
-            must, nonint = [], []
             for si, step in enumerate(joint):
                 calls = [(n, a) for (n, a) in step if n != "nop"]
+                must = []
                 for n, a in calls:
                     cs = comp.call(n, a)
                     must.append((f"step {si}: {n} {a} applicable in the step's pre-state", comp._subst(cs.pre, sa, sf)))
@@ -160,39 +194,38 @@ def run_convert(task):
                         if set(a1) & set(a2):
                             must.append((f"step {si}: {n1} {a1} and {n2} {a2} share an object although the concurrency "
                                          f"constraint is on", z3.BoolVal(False)))
+                res["obligations"] += len(must) + 1
+                post = z3.And([z3.BoolVal(True)] + [o for _, o in must])
+                r = ctx.check(z3.Not(post), expect_unsat=True)
+                if r == "unknown":
+                    raise Inconclusive("obligation")
+                if r == "sat":
+                    bad = [d for d, o in must if ctx.check(z3.Not(o)) == "sat"]
+                    _report(ctx, res, comp, atoms, fl_all, "; ".join(bad[:2]), joint, z3.Not(post))
+                    return
                 if len(calls) > 1:
-                    nonint.append((f"step {si} {calls}: members non-interfering (every order applicable, same result)",
-                                   comp._subst(comp.non_interfering(calls), sa, sf)))
+                    ni = comp._subst(comp.non_interfering(calls), sa, sf)
+                    r = ctx.check(z3.Not(ni), expect_unsat=True)
+                    if r == "unknown":
+                        raise Inconclusive("obligation")
+                    if r == "sat":
+                        # members applicable and without numeric write-write conflict, yet interfering: exactly what known
+                        # finding C15-F1 describes (the discrete / numeric-read interference tests of the converter are dead)
+                        res.setdefault("interference", []).append(
+                            f"step {si} {calls}: members non-interfering (every order applicable, same result)")
+                        if len(res["interference"]) == 1:
+                            m = ctx.solver.model() if ctx.check(z3.Not(ni)) == "sat" else None
+                            if m is not None:
+                                a_, f_ = seqsem.model_state(m, comp, atoms, fl_all)
+                                rp = concrete_convert(res["task"], a_, f_)
+                                res["interference_witness"] = {"atoms": [a for a, v in a_.items() if v], "fluents": f_,
+                                                               "joint": joint, "reproduces": bool(rp.get("disagree"))}
+                        return
                 for n, a in calls:
                     _, _, _, sa, sf = comp.step(sa, sf, n, a)
             final = ("final state of the joint plan equals the final state of the sequential plan",
                      comp.same_state(sa, sf, seq[3], seq[4]))
-            res["obligations"] += len(must) + len(nonint) + 4
-            post = z3.And([z3.BoolVal(True)] + [o for _, o in must])
-            r = ctx.check(z3.Not(post), expect_unsat=True)
-            if r == "unknown":
-                raise Inconclusive("obligation")
-            if r == "sat":
-                bad = [d for d, o in must if ctx.check(z3.Not(o)) == "sat"]
-                _report(ctx, res, comp, atoms, fl_all, "; ".join(bad[:2]), joint, z3.Not(post))
-                return
-            ni = z3.And([z3.BoolVal(True)] + [o for _, o in nonint])
-            r = ctx.check(z3.Not(ni), expect_unsat=True)
-            if r == "unknown":
-                raise Inconclusive("obligation")
-            if r == "sat":
-                # members applicable and without numeric write-write conflict, yet interfering: this is exactly what
-                # known finding C15-F1 describes (the discrete/numeric-read interference tests of the converter are dead)
-                bad = [d for d, o in nonint if ctx.check(z3.Not(o)) == "sat"]
-                res.setdefault("interference", []).append("; ".join(bad[:1]))
-                if len(res["interference"]) == 1:
-                    m = ctx.solver.model() if ctx.check(z3.Not(ni)) == "sat" else None
-                    if m is not None:
-                        a_, f_ = seqsem.model_state(m, comp, atoms, fl_all)
-                        rp = concrete_convert(res["task"], a_, f_)
-                        res["interference_witness"] = {"atoms": [a for a, v in a_.items() if v], "fluents": f_, "joint": joint,
-                                                       "reproduces": bool(rp.get("disagree"))}
-                return
+            res["obligations"] += 1
             r = ctx.check(z3.Not(final[1]), expect_unsat=True)
             if r == "unknown":
                 raise Inconclusive("obligation")
@@ -214,6 +247,23 @@ def run_convert(task):
     res["paths"] = stats.paths
     res["stats"] = stats.as_dict()
     return res
+
+
+def _after_interfering_step(ctx, comp, steps):
+    """is there a step before the failing one whose members are all applicable in that step's pre-state (on this path),
+    write no fluent twice, and can interfere?  The pre-states follow the converter's own application order."""
+    sa, sf = comp.identity()
+    for calls in steps[:-1]:
+        if len(calls) > 1:
+            app = z3.And([comp._subst(comp.call(n, a).pre, sa, sf) for n, a in calls])
+            no_ww = all(not (comp.call(n1, a1).written_fluents & comp.call(n2, a2).written_fluents)
+                        for (n1, a1), (n2, a2) in itertools.combinations(calls, 2))
+            ni = comp._subst(comp.non_interfering(calls), sa, sf)
+            if no_ww and ctx.check(z3.Not(app)) == "unsat" and ctx.check(z3.Not(ni)) == "sat":
+                return True
+        for n, a in calls:
+            _, _, _, sa, sf = comp.step(sa, sf, n, a)
+    return False
 
 
 def concrete_convert(task, atoms, fls):
